@@ -4,6 +4,7 @@ package checks
 var Registry = map[string]func(tier string){
 	"C01": C01,
 	"C16": C16,
+	"C07": C07,
 	"C15": C15,
 	"C13": C13,
 	"C14": C14,
